@@ -802,6 +802,184 @@ def gen_and_run(rng: Rng, max_ops: int = 40):
     return case, out
 
 
+class _Script:
+    """Run a directed script against the live implementation (same World / same ops as the generated traces)."""
+
+    def __init__(self, rng: Rng, profile: str, tweak=None):
+        self.case = gen_setup(rng)
+        self.case["profile"] = profile
+        if tweak:
+            tweak(self.case)
+        self.rec = Rec()
+        self.out = ["ok", "ok"] + ["ok"] * len(self.case["clients"])
+        self.dead = False
+
+    def emit(self, w: "World", op: list):
+        if self.dead:
+            return
+        self.case["ops"].append(op)
+        try:
+            self.out.append(w.do(op))
+        except Exception as e:  # noqa: BLE001
+            self.out.append(f"raised {type(e).__name__}: {str(e)[:120]}")
+            self.dead = True
+
+
+def gen_boundary_and_run(rng: Rng):
+    """`max_sessions` boundary: fill the table exactly, then one too many / a freed slot / a stopped-then-started or restarted
+    or power-cycled service / an uninstalled client / foreign disconnects / recovery from OVERWHELMED, in random order."""
+    def tweak(case):
+        case["max"] = rng.choice([1, 2, 2, 3, 3, 4])
+        for c in case["clients"]:
+            if rng.chance(5, 6):
+                c["pw"] = case["srv_pw"]
+    sc = _Script(rng, "boundary", tweak)
+    case = sc.case
+    n, m = len(case["clients"]), case["max"]
+    with instrumented(sc.rec):
+        w = World(case, sc.rec)
+        e = lambda op: sc.emit(w, op)   # noqa: E731
+        if rng.chance(1, 2):
+            e(["tick"])                  # the automatic backup at timestep 1 (needed to recover from OVERWHELMED by a restore)
+        for _ in range(m):
+            e(["connect", rng.below(n)])
+        segs = rng.shuffle(["over", "free", "free", "stopstart", "restart", "power", "recover", "uninstall", "native", "foreign", "below"])
+        for seg in segs[:rng.range(3, 6)]:
+            i = rng.below(n)
+            act = [j for j, h in enumerate(sc.rec.handles) if h.is_active]
+            if seg == "over":
+                e(["connect", i])
+                e(["hq", rng.choice(act), "SELECT"] if act else ["connect", i])
+            elif seg == "free":
+                if act:
+                    e(["hd", rng.choice(act)] if rng.chance(2, 3) else ["hq", rng.choice(act), "SELECT"])
+                e(["connect", i])
+                e(["connect", rng.below(n)])
+            elif seg == "stopstart":
+                e(["svc", rng.choice(["stop", "pause"])])
+                e(["connect", i])
+                e(["svc", "start"])
+                e(["svc", "resume"])
+                e(["connect", i])
+            elif seg == "restart":
+                e(["svc", "restart"])
+                for _ in range(case["restart"] + 1):
+                    e(["connect", i] if rng.chance(1, 3) else ["tick"])
+                e(["tick"])
+                e(["connect", i])
+            elif seg == "power":
+                e(["pow", 0, False])
+                for _ in range(case["durs"]["sDown"] + 1):
+                    e(["tick"])
+                e(["connect", i])
+                e(["pow", 0, True])
+                for _ in range(case["durs"]["sUp"] + 1):
+                    e(["tick"])
+                e(["connect", i])
+            elif seg == "recover":
+                if rng.chance(1, 2):
+                    e(["restore"])
+                else:
+                    e(["svc", "compromise"])
+                    e(["svc", "fix"])
+                    for _ in range(case["fix"] + 1):
+                        e(["tick"])
+                e(["connect", i])
+            elif seg == "uninstall":
+                e(["un", i])
+                e(["connect", rng.below(n)])
+                e(["in", i])
+                e(["cpw", i, case["srv_pw"]])
+                e(["run", i])
+                e(["connect", i])
+            elif seg == "native":
+                e(["nc", i])
+                e(["nq", i, "SELECT"])
+                e(["nd", i])
+                e(["connect", i])
+            elif seg == "foreign":
+                live = [w.rec.ids.index(c) for c in w.db._connections if c in w.rec.ids]
+                if live:
+                    e(["rd", i, rng.choice(live)])
+                e(["connect", rng.below(n)])
+            elif seg == "below":
+                if len(act) >= 1:
+                    e(["hd", act[0]])
+                if len(act) >= 2:
+                    e(["hd", act[1]])
+                e(["connect", i])
+    return case, sc.out
+
+
+def gen_cycles_and_run(rng: Rng):
+    """Repeated backup / damage / restore cycles: a leftover under downloads/ (kept, corrupted, planted, deleted), a fault on
+    the way to the backup (request or answer direction blocked, backup host off, its FTP server stopped, the FTP client on the
+    database host stopped / restarting / uninstalled), restore (directly or by a completing fix), the fault undone, restore."""
+    def tweak(case):
+        case["bkcfg"] = True
+        case["max"] = max(case["max"], 2)
+        case["clients"][0]["pw"] = case["srv_pw"]
+    sc = _Script(rng, "cycles", tweak)
+    case = sc.case
+    with instrumented(sc.rec):
+        w = World(case, sc.rec)
+        e = lambda op: sc.emit(w, op)   # noqa: E731
+        if rng.chance(1, 3):
+            e(["fcor"])   # a backup of data that is already damaged restores to damaged data
+        e(["tick"] if rng.chance(1, 2) else ["backup"])
+        if rng.chance(1, 4):
+            e(["frep"])
+        e(["connect", 0])
+        for _ in range(rng.range(2, 4)):
+            act = [j for j, h in enumerate(sc.rec.handles) if h.is_active]
+            dmg = rng.choice(["DELETE", "DELETE", "ENCRYPT", "fcor", "fdel", "fodel"])
+            if dmg in ("DELETE", "ENCRYPT"):
+                e(["hq", rng.choice(act), dmg] if act else ["connect", 0])
+            else:
+                e([dmg])
+            lo = rng.choice(["keep", "keep", "cor", "plant", "del", "fodel"])
+            if lo == "plant":
+                e(["dl", "plant", rng.choice(["GOOD", "CORRUPT", "COMPROMISED"])])
+            elif lo != "keep":
+                e(["dl", lo])
+            fault = rng.choice(["none", "none", "blk0", "blk1", "bkoff", "ftps", "ftpcstop", "ftpcrestart", "ftpcun", "bkdel"])
+            undo = []
+            if fault == "blk0":
+                e(["blk", 0, True]); undo = [["blk", 0, False]]
+            elif fault == "blk1":
+                e(["blk", 1, True]); undo = [["blk", 1, False]]
+            elif fault == "bkoff":
+                e(["pow", 1, False])
+                for _ in range(case["durs"]["bDown"] + rng.below(2)):
+                    e(["tick"])
+                undo = [["pow", 1, True]] + [["tick"]] * (case["durs"]["bUp"] + 1)
+            elif fault == "ftps":
+                e(["ftps", False]); undo = [["ftps", True]]
+            elif fault == "ftpcstop":
+                e(["adm", "ftpc", rng.choice(["stop", "pause", "disable"])])
+                undo = [["adm", "ftpc", "enable"], ["adm", "ftpc", "start"], ["adm", "ftpc", "resume"]]
+            elif fault == "ftpcrestart":
+                e(["adm", "ftpc", "restart"]); undo = [["tick"]] * 6
+            elif fault == "ftpcun":
+                e(["adm", "ftpcun"]); undo = [["adm", "ftpcin", rng.chance(1, 2)]]
+            elif fault == "bkdel":
+                e(["bkdel"]); undo = [["backup"]]
+            if rng.chance(2, 3):
+                e(["restore"])
+            else:
+                e(["svc", "fix"])
+                for _ in range(case["fix"] + 1):
+                    e(["tick"])
+            if act:
+                e(["hq", rng.choice(act), "SELECT"])
+            for op in undo:
+                e(list(op))
+            e(["restore"])
+            if act:
+                e(["hq", rng.choice(act), "SELECT"])
+    return case, sc.out
+
+
 def nontrivial(model: List[str]) -> bool:
     """A trace is non-trivial when it exercised something beyond plain successful connects/queries."""
     joined = "\n".join(model)
